@@ -135,12 +135,37 @@ pub fn gen_truth(ch: &mut Chooser, max_vars: usize) -> Truth {
     let mut used = vec![];
     let mut vars = vec![];
     for _ in 0..n {
-        let kind = match ch.below(12) {
-            11 => Kind::MappingStruct {
-                key_addr: ch.chance(1, 2),
-                fields:   gen_fields(ch),
-                rev_args: ch.chance(1, 2),
-            },
+        let kind = match ch.below(13) {
+            11 | 12 => {
+                // often a twin of the previous such mapping: the same equal-width fields filled from the
+                // same call-data words in the opposite order (the values are shared between the two)
+                let twin = vars.iter().rev().find_map(|v: &Var| match &v.kind {
+                    Kind::MappingStruct { fields, rev_args, .. } => Some((fields.clone(), *rev_args)),
+                    _ => None,
+                });
+                let key_addr = ch.chance(1, 2);
+                match twin {
+                    Some((fields, rev)) if ch.chance(2, 3) => Kind::MappingStruct {
+                        key_addr,
+                        fields,
+                        rev_args: !rev,
+                    },
+                    _ if ch.chance(1, 2) => {
+                        let w = *ch.pick(&[8usize, 16, 32, 64, 128]);
+                        let n = ch.range(2, 4).min(256 / w);
+                        Kind::MappingStruct {
+                            key_addr,
+                            fields: (0..n).map(|i| (i * w, w)).collect(),
+                            rev_args: ch.chance(1, 2),
+                        }
+                    }
+                    _ => Kind::MappingStruct {
+                        key_addr,
+                        fields: gen_fields(ch),
+                        rev_args: ch.chance(1, 2),
+                    },
+                }
+            }
             10 => Kind::Scaled {
                 width:  *ch.pick(&[8usize, 32, 64, 128, 160]),
                 factor: *ch.pick(&[
